@@ -506,6 +506,8 @@ const WALK_RULES: &[Option<&str>] = &[
     Some(".undef"),
     Some("{S}{H} 1 +"),
     Some("{S}nope"),
+    // a register the CPU has, spelled in upper case: names are case-sensitive, so it is an unknown one
+    Some("{S}{HU} 1 +"),
     Some("4 .cfa -"),
     Some(".cfa 4294967296 +"),
     Some("4294967296"),
@@ -540,6 +542,7 @@ fn walk_subst(cpu: &WalkCpu, t: &str) -> String {
         .replace("{SP}", cpu.sp)
         .replace("{FP}", cpu.fp)
         .replace("{S}", cpu.sigil)
+        .replace("{HU}", &cpu.helper.to_uppercase())
         .replace("{H}", cpu.helper)
 }
 /// largest value a register of the CPU holds
